@@ -1,146 +1,169 @@
 import Chewing.Proofs.CliCompile
 /-!
-Source files as bytes: a line that is not valid UTF-8 (finding F45).  `run` stops at the first such line it
-reads; if there is none the byte-level run is the text-level run all other theorems are about.
+Source files as bytes.  A line that is not valid UTF-8 is a malformed line like any other (fix of F45):
+`BufRead::lines` yields `Err(InvalidData)` for it and goes on with the next line; `run` collects it with its
+number.  The byte-level run `compileRaw` has the same shape as the text-level run `compileRun` (the lemmas
+below are those of `CliCompile` for `parseRawLine` instead of `parse_line`); if no line the loop reads is
+invalid it *is* the text-level run.
 -/
 namespace Chewing.Cli
-open Chewing List
+open Chewing Gen List
 
-/-- line `i` is read with `line?` (it is not the skipped CSV header) and is not valid UTF-8 -/
+/-- line `i` is read by the loop (it is not the skipped CSV header) and is not valid UTF-8 -/
 def InvalidAt (f : Flags) (src : RawLines) (i : Nat) : Prop := src[i]? = some none ∧ (f.csv = true → i ≠ 0)
 
-theorem firstInvalid_spec (f : Flags) : ∀ (ls : RawLines) (idx : Nat),
-    (∀ i, firstInvalid f idx ls = some i ↔
-      ∃ k, i = idx + k ∧ ls[k]? = some none ∧ (f.csv = true → i ≠ 0) ∧
-        ∀ j < k, ¬ (ls[j]? = some none ∧ (f.csv = true → idx + j ≠ 0)))
-  | [], idx => by simp [firstInvalid]
-  | l :: ls, idx => by
-    intro i
-    have ih := firstInvalid_spec f ls (idx + 1) i
-    unfold firstInvalid
-    by_cases hskip : (f.csv && idx == 0) = true
-    · have hc : f.csv = true ∧ idx = 0 := by simpa using hskip
-      simp only [hskip, if_true]
-      rw [ih]
+/-- the lines `run` looks at: with `--csv` the first one is skipped unread -/
+def rawBody (f : Flags) (src : RawLines) : RawLines := if f.csv then src.drop 1 else src
+
+def okRawRec (f : Flags) (l : Option Text) : Option Rec :=
+  match parseRawLine f l with
+  | .ok r => some r
+  | .error _ => none
+
+/-- the records of the lines that are valid UTF-8 and parse, in file order -/
+def validRawRecs (f : Flags) (src : RawLines) : List Rec := (rawBody f src).filterMap (okRawRec f)
+
+/-- after the header position nothing is skipped any more -/
+theorem parseAllRaw_noskip (f : Flags) : ∀ (ls : RawLines) (idx : Nat), (f.csv = true → 1 ≤ idx) →
+    (parseAllRaw f idx ls).1 = ls.filterMap (okRawRec f) ∧
+    ∀ j e, (j, e) ∈ (parseAllRaw f idx ls).2 ↔
+      ∃ i l, ls[i]? = some l ∧ j = idx + i ∧ parseRawLine f l = .error e
+  | [], idx, _ => by simp [parseAllRaw]
+  | l :: ls, idx, h => by
+    obtain ⟨ih1, ih2⟩ := parseAllRaw_noskip f ls (idx + 1) (fun c => by have := h c; omega)
+    have hskip : (f.csv && idx == 0) = false := by
+      cases hc : f.csv with
+      | false => rfl
+      | true => have := h hc; simp; omega
+    have hpa : parseAllRaw f idx (l :: ls) =
+        match parseRawLine f l with
+        | .ok r => (r :: (parseAllRaw f (idx + 1) ls).1, (parseAllRaw f (idx + 1) ls).2)
+        | .error e => ((parseAllRaw f (idx + 1) ls).1, (idx, e) :: (parseAllRaw f (idx + 1) ls).2) := by
+      rw [parseAllRaw]
+      simp only [hskip]
+      rfl
+    rw [hpa]
+    cases hp : parseRawLine f l with
+    | ok r =>
+      refine ⟨by simp [ih1, okRawRec, hp], ?_⟩
+      intro j e
+      show (j, e) ∈ (parseAllRaw f (idx + 1) ls).2 ↔ _
+      rw [ih2]
       constructor
-      · rintro ⟨k, rfl, h1, h2, h3⟩
-        refine ⟨k + 1, by omega, by simpa using h1, h2, ?_⟩
-        intro j hj
-        cases j with
-        | zero => intro c; exact c.2 hc.1 (by omega)
-        | succ j =>
-          have := h3 j (by omega)
-          intro c; apply this
-          exact ⟨by simpa using c.1, fun hh => by have := c.2 hh; omega⟩
-      · rintro ⟨k, rfl, h1, h2, h3⟩
-        cases k with
-        | zero => exact absurd (by omega) (h2 hc.1)
-        | succ k =>
-          refine ⟨k, by omega, by simpa using h1, h2, ?_⟩
-          intro j hj c
-          apply h3 (j + 1) (by omega)
-          exact ⟨by simpa using c.1, fun hh => by have := c.2 hh; omega⟩
+      · rintro ⟨i, l', h1, h2, h3⟩
+        exact ⟨i + 1, l', by simpa using h1, by omega, h3⟩
+      · rintro ⟨i, l', h1, h2, h3⟩
+        cases i with
+        | zero =>
+          simp at h1; subst h1; rw [hp] at h3; cases h3
+        | succ i => exact ⟨i, l', by simpa using h1, by omega, h3⟩
+    | error e0 =>
+      refine ⟨by simp [ih1, okRawRec, hp], ?_⟩
+      intro j e
+      show (j, e) ∈ (idx, e0) :: (parseAllRaw f (idx + 1) ls).2 ↔ _
+      rw [List.mem_cons, ih2]
+      constructor
+      · rintro (heq | ⟨i, l', h1, h2, h3⟩)
+        · cases heq
+          exact ⟨0, l, by simp, by omega, hp⟩
+        · exact ⟨i + 1, l', by simpa using h1, by omega, h3⟩
+      · rintro ⟨i, l', h1, h2, h3⟩
+        cases i with
+        | zero =>
+          simp at h1; subst h1; rw [hp] at h3
+          cases h3
+          exact Or.inl (by simp [h2])
+        | succ i => exact Or.inr ⟨i, l', by simpa using h1, by omega, h3⟩
+
+/-- `parseAllRaw` from the top of the file = the rawBody lines, numbered from `bodyStart` -/
+theorem parseAllRaw_top (f : Flags) (src : RawLines) :
+    (parseAllRaw f 0 src).1 = validRawRecs f src ∧
+    ∀ j e, (j, e) ∈ (parseAllRaw f 0 src).2 ↔
+      ∃ i l, (rawBody f src)[i]? = some l ∧ j = bodyStart f + i ∧ parseRawLine f l = .error e := by
+  cases hc : f.csv with
+  | false =>
+    have := parseAllRaw_noskip f src 0 (fun c => by rw [hc] at c; exact Bool.noConfusion c)
+    simpa [validRawRecs, rawBody, bodyStart, hc] using this
+  | true =>
+    cases src with
+    | nil => simp [parseAllRaw, validRawRecs, rawBody, hc]
+    | cons l ls =>
+      have := parseAllRaw_noskip f ls 1 (fun _ => Nat.le_refl 1)
+      have hp : parseAllRaw f 0 (l :: ls) = parseAllRaw f 1 ls := by
+        rw [parseAllRaw]
+        simp [hc]
+      rw [hp]
+      simpa [validRawRecs, rawBody, bodyStart, hc] using this
+
+theorem compileRaw_inserted (f : Flags) (src : RawLines) :
+    (compileRaw f src).inserted =
+      if (compileRaw f src).reported ≠ [] ∧ f.skip = false then none else some (validRawRecs f src) := by
+  unfold compileRaw
+  rw [← (parseAllRaw_top f src).1]
+  cases h : (parseAllRaw f 0 src).2 with
+  | nil => simp
+  | cons e es => cases hs : f.skip <;> simp
+
+/-- exactly the failing rawBody lines are reported, each with its 1-based line number -/
+theorem mem_raw_reported (f : Flags) (src : RawLines) (n : Nat) (e : LineErr) :
+    (n, e) ∈ (compileRaw f src).reported ↔
+      ∃ i l, (rawBody f src)[i]? = some l ∧ n = bodyStart f + i + 1 ∧ parseRawLine f l = .error e := by
+  unfold compileRaw
+  simp only [List.mem_map]
+  constructor
+  · rintro ⟨⟨j, e'⟩, hm, heq⟩
+    simp only [Prod.mk.injEq] at heq
+    obtain ⟨rfl, rfl⟩ := heq
+    obtain ⟨i, l, h1, h2, h3⟩ := ((parseAllRaw_top f src).2 j e').mp hm
+    exact ⟨i, l, h1, by omega, h3⟩
+  · rintro ⟨i, l, h1, h2, h3⟩
+    exact ⟨(bodyStart f + i, e), ((parseAllRaw_top f src).2 _ _).mpr ⟨i, l, h1, rfl, h3⟩, by simp [h2]⟩
+
+/-- line `i` (0-based) of the file, seen from the rawBody -/
+theorem rawBody_get (f : Flags) (src : RawLines) (i : Nat) (h : f.csv = true → i ≠ 0) :
+    ∃ k, i = bodyStart f + k ∧ (rawBody f src)[k]? = src[i]? := by
+  cases hc : f.csv with
+  | false => exact ⟨i, by simp [bodyStart, hc], by simp [rawBody, hc]⟩
+  | true =>
+    have := h hc
+    refine ⟨i - 1, by simp [bodyStart, hc]; omega, ?_⟩
+    simp only [rawBody, hc, if_true, List.getElem?_drop]
+    congr 1; omega
+
+
+/-- the text the loop sees for a line (an invalid CSV header, which is skipped unread, counts as empty) -/
+def rawText (l : Option Text) : Text := l.getD []
+
+theorem parseAllRaw_valid (f : Flags) : ∀ (ls : RawLines) (idx : Nat),
+    (∀ k, ¬ (ls[k]? = some none ∧ (f.csv = true → idx + k ≠ 0))) →
+    parseAllRaw f idx ls = parseAll f idx (ls.map rawText)
+  | [], _, _ => by simp [parseAllRaw, parseAll]
+  | l :: ls, idx, h => by
+    have ih := parseAllRaw_valid f ls (idx + 1) (fun k c => h (k + 1) ⟨by simpa using c.1, fun hc => by have := c.2 hc; omega⟩)
+    rw [parseAllRaw, List.map_cons, parseAll]
+    by_cases hskip : (f.csv && idx == 0) = true
+    · simp only [hskip, if_true]; exact ih
     · simp only [hskip, Bool.false_eq_true, if_false]
-      have hns : f.csv = true → idx ≠ 0 := by
-        intro hc h0; apply hskip; simp [hc, h0]
       cases l with
       | none =>
-        simp only [Option.some.injEq]
-        constructor
-        · rintro rfl
-          exact ⟨0, rfl, by simp, hns, by intro j hj; omega⟩
-        · rintro ⟨k, rfl, h1, h2, h3⟩
-          cases k with
-          | zero => rfl
-          | succ k => exact absurd ⟨by simp, by simpa using hns⟩ (h3 0 (by omega))
+        exfalso
+        apply h 0
+        refine ⟨by simp, fun hc h0 => hskip ?_⟩
+        simp only [Nat.add_zero] at h0
+        simp [hc, h0]
       | some t =>
-        simp only
-        rw [ih]
-        constructor
-        · rintro ⟨k, rfl, h1, h2, h3⟩
-          refine ⟨k + 1, by omega, by simpa using h1, h2, ?_⟩
-          intro j hj
-          cases j with
-          | zero => intro c; simp at c
-          | succ j =>
-            have := h3 j (by omega)
-            intro c; apply this
-            exact ⟨by simpa using c.1, fun hh => by have := c.2 hh; omega⟩
-        · rintro ⟨k, rfl, h1, h2, h3⟩
-          cases k with
-          | zero => simp at h1
-          | succ k =>
-            refine ⟨k, by omega, by simpa using h1, h2, ?_⟩
-            intro j hj c
-            apply h3 (j + 1) (by omega)
-            exact ⟨by simpa using c.1, fun hh => by have := c.2 hh; omega⟩
+        simp only [parseRawLine, rawText, Option.getD_some, ih]
 
-/-- the run stops with the I/O error at line `i` iff `i` is the first invalid line it reads -/
-theorem compileRaw_ioError_iff (f : Flags) (src : RawLines) (i : Nat) :
-    compileRaw f src = .ioError i ↔ InvalidAt f src i ∧ ∀ j < i, ¬ InvalidAt f src j := by
-  have h := firstInvalid_spec f src 0 i
-  simp only [Nat.zero_add] at h
-  unfold compileRaw
-  constructor
-  · intro hc
-    cases hf : firstInvalid f 0 src with
-    | none => rw [hf] at hc; cases hc
-    | some k =>
-      rw [hf] at hc
-      cases hc
-      obtain ⟨k, rfl, h1, h2, h3⟩ := h.mp hf
-      exact ⟨⟨h1, h2⟩, fun j hj c => h3 j hj ⟨c.1, c.2⟩⟩
-  · rintro ⟨⟨h1, h2⟩, h3⟩
-    rw [h.mpr ⟨i, rfl, h1, h2, fun j hj c => h3 j hj ⟨c.1, c.2⟩⟩]
-
-theorem firstInvalid_none (f : Flags) : ∀ (ls : RawLines) (idx : Nat), firstInvalid f idx ls = none →
-    ∀ k, ¬ (ls[k]? = some none ∧ (f.csv = true → idx + k ≠ 0))
-  | [], _, _, k => by simp
-  | l :: ls, idx, h, k => by
-    unfold firstInvalid at h
-    by_cases hskip : (f.csv && idx == 0) = true
-    · have hc : f.csv = true ∧ idx = 0 := by simpa using hskip
-      simp only [hskip, if_true] at h
-      cases k with
-      | zero => intro c; exact c.2 hc.1 (by omega)
-      | succ k =>
-        intro c
-        exact firstInvalid_none f ls (idx + 1) h k ⟨by simpa using c.1, fun hh => by have := c.2 hh; omega⟩
-    · simp only [hskip, Bool.false_eq_true, if_false] at h
-      cases l with
-      | none => cases h
-      | some t =>
-        simp only at h
-        cases k with
-        | zero => intro c; simp at c
-        | succ k =>
-          intro c
-          exact firstInvalid_none f ls (idx + 1) h k ⟨by simpa using c.1, fun hh => by have := c.2 hh; omega⟩
-
-/-- the run gets through the file iff no line it reads is invalid; it is then the text-level run -/
-theorem compileRaw_ran_iff (f : Flags) (src : RawLines) :
-    (∃ r, compileRaw f src = .ran r) ↔ ∀ i, ¬ InvalidAt f src i := by
-  unfold compileRaw
-  cases hf : firstInvalid f 0 src with
-  | some k =>
-    obtain ⟨k', e, h1, h2, _⟩ := (firstInvalid_spec f src 0 k).mp hf
-    simp only [Nat.zero_add] at e
-    subst e
-    constructor
-    · rintro ⟨r, hr⟩; cases hr
-    · intro h; exact absurd ⟨h1, h2⟩ (h k)
-  | none =>
-    constructor
-    · intro _ i hi
-      exact firstInvalid_none f src 0 hf i ⟨hi.1, by simpa using hi.2⟩
-    · intro _; exact ⟨_, rfl⟩
-
+/-- if no line the loop reads is invalid, the byte-level run is the text-level run -/
 theorem compileRaw_valid (f : Flags) (src : RawLines) (h : ∀ i, ¬ InvalidAt f src i) :
-    compileRaw f src = .ran (compileRun f (src.map (·.getD []))) := by
-  obtain ⟨r, hr⟩ := (compileRaw_ran_iff f src).mpr h
-  unfold compileRaw at hr ⊢
-  cases hf : firstInvalid f 0 src with
-  | some k => rw [hf] at hr; cases hr
-  | none => rfl
+    compileRaw f src = compileRun f (src.map rawText) := by
+  unfold compileRaw compileRun
+  rw [parseAllRaw_valid f src 0 (fun k c => h k ⟨c.1, by simpa using c.2⟩)]
+
+/-- an invalid line the loop reads is reported with its 1-based number, cause `invalidUtf8` -/
+theorem invalid_reported (f : Flags) (src : RawLines) (i : Nat) (h : InvalidAt f src i) :
+    (i + 1, LineErr.invalidUtf8) ∈ (compileRaw f src).reported := by
+  obtain ⟨k, hk, hb⟩ := rawBody_get f src i h.2
+  exact (mem_raw_reported f src (i + 1) _).mpr ⟨k, none, by rw [hb, h.1], by omega, rfl⟩
 
 end Chewing.Cli
